@@ -4,6 +4,7 @@ package main
 
 import (
 	"encoding/json"
+	"fmt"
 	"sort"
 	"strings"
 
@@ -11,62 +12,256 @@ import (
 	"github.com/grafana/cog/verifx/irgen"
 )
 
-// Specials are IR shapes grammar I does not have a constructor for. They are
-// all *reachable from documents* (each names the document that yields it) and
-// keep the payload pointer of their Kind set; Kind/payload mismatches are only
-// reachable through the `as:` types of configuration files and live in part (c).
+// Specials are IR shapes grammar I does not have a constructor for. Each one
+// comes with the document that (on the tree under test!) makes a parser emit
+// it and a predicate recognising it in a parsed IR: before part (d) starts,
+// the documents are loaded by the real parsers and only the specials found in
+// the resulting IRs are used ("all intermediate representations reachable
+// from [documents]": a shape the parsers can not produce proves nothing).
+// They keep the payload pointer of their Kind set; Kind/payload mismatches are
+// only reachable through the `as:` types of configuration files: part (c).
 // A special is written in a Term as a reference to "p.@<name>" and substituted
 // after Term.Build (so that irgen's wrappers, printing and ordering apply).
-var specials = map[string]func() ast.Type{
-	// OpenAPI {"type":"string","enum":[]}
-	"emptyenum": func() ast.Type { return ast.NewEnum(nil) },
-	// JSON Schema {"type":"object","properties":{}} is `any`; CUE `{}` gives a struct without fields
-	"emptystruct": func() ast.Type { return ast.NewStruct() },
-	// JSON Schema "properties":{"":{...}}
-	"emptyfieldname": func() ast.Type { return ast.NewStruct(ast.NewStructField("", ast.String())) },
-	// CUE {"a-b": string, a_b: string}
-	"dupfields": func() ast.Type {
-		return ast.NewStruct(ast.NewStructField("a", ast.String()), ast.NewStructField("a", ast.NewScalar(ast.KindInt64)))
+type specialDef struct {
+	Make   func() ast.Type
+	Format string
+	Doc    string
+	Has    func(t ast.Type) bool
+}
+
+func sameGoType(values []ast.EnumValue) bool {
+	for _, v := range values[1:] {
+		if fmt.Sprintf("%T", v.Value) != fmt.Sprintf("%T", values[0].Value) {
+			return false
+		}
+	}
+	return true
+}
+
+var specialDefs = map[string]specialDef{
+	"emptyenum": {
+		Make:   func() ast.Type { return ast.NewEnum(nil) },
+		Format: "openapi", Doc: oaDoc(`"Root":{"type":"object","properties":{"f":{"type":"string","enum":[]}}}`),
+		Has: func(t ast.Type) bool { return t.Kind == ast.KindEnum && t.Enum != nil && len(t.Enum.Values) == 0 },
 	},
-	// OpenAPI {"allOf":[]}
-	"emptyinter": func() ast.Type { return ast.NewIntersection(nil) },
-	// JSON Schema {"type":[]}
-	"emptydisj": func() ast.Type { return ast.NewDisjunction(nil) },
-	// JSON Schema {"oneOf":[{"type":"string"}]}
-	"onebranch": func() ast.Type { return ast.NewDisjunction(ast.Types{ast.String()}) },
-	// JSON Schema {"type":"integer","default":3}: the default is a json.Number
-	"jsonnumberdefault": func() ast.Type { return ast.NewScalar(ast.KindInt64, ast.Default(json.Number("3"))) },
-	// JSON Schema {"type":"string","default":3}
-	"mismatcheddefault": func() ast.Type { return ast.String(ast.Default(int64(3))) },
-	// JSON Schema {"type":"string","const":3}
-	"mismatchedconst": func() ast.Type { return ast.String(ast.Value(json.Number("3"))) },
-	// JSON Schema {"const":null} / {"type":"null"}
-	"null": func() ast.Type { return ast.Null() },
-	// JSON Schema {"enum":["a",1]}: member values of different types
-	"mixedenum": func() ast.Type {
-		return ast.NewEnum([]ast.EnumValue{{Type: ast.String(), Name: "a", Value: "a"}, {Type: ast.String(), Name: "1", Value: json.Number("1")}})
+	"emptystruct": {
+		Make:   func() ast.Type { return ast.NewStruct() },
+		Format: "cue", Doc: cueDoc("Root: {f: {}}"),
+		Has: func(t ast.Type) bool { return t.Kind == ast.KindStruct && t.Struct != nil && len(t.Struct.Fields) == 0 },
 	},
-	// JSON Schema {"enum":[null]}
-	"nullenum": func() ast.Type {
-		return ast.NewEnum([]ast.EnumValue{{Type: ast.NewScalar(ast.KindInt64), Name: "<nil>", Value: nil}})
+	"emptyfieldname": {
+		Make:   func() ast.Type { return ast.NewStruct(ast.NewStructField("", ast.String())) },
+		Format: "jsonschema", Doc: jsDoc(`"Root":{"type":"object","properties":{"":{"type":"string"}}}`),
+		Has: func(t ast.Type) bool {
+			if t.Kind != ast.KindStruct || t.Struct == nil {
+				return false
+			}
+			for _, f := range t.Struct.Fields {
+				if f.Name == "" {
+					return true
+				}
+			}
+			return false
+		},
 	},
-	// OpenAPI discriminator naming a property no branch has, mapping to nowhere
-	"baddisc": func() ast.Type {
-		return ast.NewDisjunction(ast.Types{ast.NewRef("p", "S"), ast.NewRef("p", "T")}, ast.Discriminator("nope", map[string]string{"x": "#/components/schemas/Missing"}))
+	"dupfields": {
+		Make: func() ast.Type {
+			return ast.NewStruct(ast.NewStructField("a", ast.String()), ast.NewStructField("a", ast.NewScalar(ast.KindInt64)))
+		},
+		Format: "jsonschema", Doc: jsDoc(`"Root":{"type":"object","properties":{"a":{"type":"string"},"a":{"type":"integer"}}}`),
+		Has: func(t ast.Type) bool {
+			if t.Kind != ast.KindStruct || t.Struct == nil {
+				return false
+			}
+			seen := map[string]bool{}
+			for _, f := range t.Struct.Fields {
+				if seen[f.Name] {
+					return true
+				}
+				seen[f.Name] = true
+			}
+			return false
+		},
 	},
-	// OpenAPI discriminator on scalar branches
-	"scalardisc": func() ast.Type {
-		return ast.NewDisjunction(ast.Types{ast.String(), ast.NewScalar(ast.KindInt64)}, ast.Discriminator("kind", map[string]string{}))
+	"emptyinter": {
+		Make:   func() ast.Type { return ast.NewIntersection(nil) },
+		Format: "openapi", Doc: oaDoc(`"Root":{"type":"object","properties":{"f":{"allOf":[]}}}`),
+		Has: func(t ast.Type) bool {
+			return t.Kind == ast.KindIntersection && t.Intersection != nil && len(t.Intersection.Branches) == 0
+		},
 	},
-	// CUE `E & "zz"`: constant reference to a value the enum does not have
-	"constrefnomember": func() ast.Type { return ast.NewConstantReferenceType("p", "E", "zz") },
-	// CUE `S & "a"`: constant reference to a non-enum
-	"constrefstruct": func() ast.Type { return ast.NewConstantReferenceType("p", "S", "a") },
-	// CUE [...(S|T)] with nulls
-	"arrayofnull": func() ast.Type { return ast.NewArray(ast.Null()) },
-	// map with a non-string index (CUE {[E]: string})
-	"mapbyref": func() ast.Type { return ast.NewMap(ast.NewRef("p", "E"), ast.String()) },
-	"mapbyint": func() ast.Type { return ast.NewMap(ast.NewScalar(ast.KindInt64), ast.String()) },
+	"emptydisj": {
+		Make:   func() ast.Type { return ast.NewDisjunction(nil) },
+		Format: "openapi", Doc: oaDoc(`"Root":{"type":"object","properties":{"f":{"oneOf":[]}}}`),
+		Has: func(t ast.Type) bool {
+			return t.Kind == ast.KindDisjunction && t.Disjunction != nil && len(t.Disjunction.Branches) == 0
+		},
+	},
+	"onebranch": {
+		Make:   func() ast.Type { return ast.NewDisjunction(ast.Types{ast.String()}) },
+		Format: "jsonschema", Doc: jsDoc(`"Root":{"type":"object","properties":{"f":{"oneOf":[{"type":"string"}]}}}`),
+		Has: func(t ast.Type) bool {
+			return t.Kind == ast.KindDisjunction && t.Disjunction != nil && len(t.Disjunction.Branches) == 1
+		},
+	},
+	"jsonnumberdefault": {
+		Make:   func() ast.Type { return ast.NewScalar(ast.KindInt64, ast.Default(json.Number("3"))) },
+		Format: "jsonschema", Doc: jsDoc(`"Root":{"type":"object","properties":{"f":{"type":"integer","default":3}}}`),
+		Has: func(t ast.Type) bool { _, ok := t.Default.(json.Number); return ok && t.Kind == ast.KindScalar },
+	},
+	"mismatcheddefault": {
+		Make:   func() ast.Type { return ast.String(ast.Default(json.Number("3"))) },
+		Format: "jsonschema", Doc: jsDoc(`"Root":{"type":"object","properties":{"f":{"type":"string","default":3}}}`),
+		Has: func(t ast.Type) bool {
+			if t.Kind != ast.KindScalar || t.Scalar == nil || t.Scalar.ScalarKind != ast.KindString || t.Default == nil {
+				return false
+			}
+			_, isString := t.Default.(string)
+			return !isString
+		},
+	},
+	"mismatchedconst": {
+		Make:   func() ast.Type { return ast.String(ast.Value(json.Number("3"))) },
+		Format: "jsonschema", Doc: jsDoc(`"Root":{"type":"object","properties":{"f":{"type":"string","const":3}}}`),
+		Has: func(t ast.Type) bool {
+			if t.Kind != ast.KindScalar || t.Scalar == nil || t.Scalar.ScalarKind != ast.KindString || t.Scalar.Value == nil {
+				return false
+			}
+			_, isString := t.Scalar.Value.(string)
+			return !isString
+		},
+	},
+	"null": {
+		Make:   func() ast.Type { return ast.Null() },
+		Format: "jsonschema", Doc: jsDoc(`"Root":{"type":"object","properties":{"f":{"type":"null"}}}`),
+		Has: func(t ast.Type) bool { return t.Kind == ast.KindScalar && t.Scalar != nil && t.Scalar.ScalarKind == ast.KindNull },
+	},
+	"mixedenum": {
+		Make: func() ast.Type {
+			return ast.NewEnum([]ast.EnumValue{{Type: ast.String(), Name: "a", Value: "a"}, {Type: ast.String(), Name: "1", Value: json.Number("1")}})
+		},
+		Format: "jsonschema", Doc: jsDoc(`"Root":{"type":"object","properties":{"f":{"enum":["a",1]}}}`),
+		Has: func(t ast.Type) bool {
+			return t.Kind == ast.KindEnum && t.Enum != nil && len(t.Enum.Values) > 1 && !sameGoType(t.Enum.Values)
+		},
+	},
+	"nullenum": {
+		Make: func() ast.Type {
+			return ast.NewEnum([]ast.EnumValue{{Type: ast.NewScalar(ast.KindInt64), Name: "<nil>", Value: nil}})
+		},
+		Format: "jsonschema", Doc: jsDoc(`"Root":{"type":"object","properties":{"f":{"enum":[null]}}}`),
+		Has: func(t ast.Type) bool {
+			if t.Kind != ast.KindEnum || t.Enum == nil {
+				return false
+			}
+			for _, v := range t.Enum.Values {
+				if v.Value == nil {
+					return true
+				}
+			}
+			return false
+		},
+	},
+	"baddisc": {
+		Make: func() ast.Type {
+			return ast.NewDisjunction(ast.Types{ast.NewRef("p", "S"), ast.NewRef("p", "T")}, ast.Discriminator("nope", map[string]string{"x": "#/components/schemas/Missing"}))
+		},
+		Format: "openapi", Doc: oaDoc(`"Root":{"type":"object","properties":{"f":{"oneOf":[{"$ref":"#/components/schemas/S"},{"$ref":"#/components/schemas/T"}],"discriminator":{"propertyName":"nope","mapping":{"x":"#/components/schemas/Missing"}}}}},` + oaS + `,` + oaT),
+		Has: func(t ast.Type) bool {
+			return t.Kind == ast.KindDisjunction && t.Disjunction != nil && t.Disjunction.Discriminator == "nope" && len(t.Disjunction.DiscriminatorMapping) == 1
+		},
+	},
+	"scalardisc": {
+		Make: func() ast.Type {
+			return ast.NewDisjunction(ast.Types{ast.String(), ast.NewScalar(ast.KindInt64)}, ast.Discriminator("kind", map[string]string{}))
+		},
+		Format: "openapi", Doc: oaDoc(`"Root":{"type":"object","properties":{"f":{"oneOf":[{"type":"string"},{"type":"integer"}],"discriminator":{"propertyName":"kind"}}}}`),
+		Has: func(t ast.Type) bool {
+			return t.Kind == ast.KindDisjunction && t.Disjunction != nil && t.Disjunction.Discriminator != "" && len(t.Disjunction.Branches) > 0 && t.Disjunction.Branches[0].Kind == ast.KindScalar
+		},
+	},
+	"constrefnomember": {
+		Make:   func() ast.Type { return ast.NewConstantReferenceType("p", "E", "zz") },
+		Format: "cue", Doc: cueDoc("Root: {f: E & \"zz\"}\nE: \"a\" | \"b\" | string"),
+		Has: func(t ast.Type) bool {
+			return t.Kind == ast.KindConstantRef && t.ConstantReference != nil && t.ConstantReference.ReferenceValue == "zz"
+		},
+	},
+	"constrefstruct": {
+		Make:   func() ast.Type { return ast.NewConstantReferenceType("p", "S", "a") },
+		Format: "cue", Doc: cueDoc("Root: {f: S & \"a\"}\nS: {x?: string} | string"),
+		Has: func(t ast.Type) bool {
+			return t.Kind == ast.KindConstantRef && t.ConstantReference != nil && t.ConstantReference.ReferredType == "S"
+		},
+	},
+	"arrayofnull": {
+		Make:   func() ast.Type { return ast.NewArray(ast.Null()) },
+		Format: "jsonschema", Doc: jsDoc(`"Root":{"type":"object","properties":{"f":{"type":"array","items":{"type":"null"}}}}`),
+		Has: func(t ast.Type) bool {
+			return t.Kind == ast.KindArray && t.Array != nil && t.Array.ValueType.Kind == ast.KindScalar && t.Array.ValueType.Scalar != nil && t.Array.ValueType.Scalar.ScalarKind == ast.KindNull
+		},
+	},
+	"mapbyref": {
+		Make:   func() ast.Type { return ast.NewMap(ast.NewRef("p", "E"), ast.String()) },
+		Format: "cue", Doc: cueDoc("Root: {f: {[E]: string}}\nE: \"a\" | \"b\""),
+		Has: func(t ast.Type) bool { return t.Kind == ast.KindMap && t.Map != nil && t.Map.IndexType.Kind == ast.KindRef },
+	},
+	"mapbyint": {
+		Make:   func() ast.Type { return ast.NewMap(ast.NewScalar(ast.KindInt64), ast.String()) },
+		Format: "cue", Doc: cueDoc("Root: {f: {[int]: string}}"),
+		Has: func(t ast.Type) bool {
+			return t.Kind == ast.KindMap && t.Map != nil && t.Map.IndexType.Kind == ast.KindScalar && t.Map.IndexType.Scalar != nil && t.Map.IndexType.Scalar.ScalarKind != ast.KindString
+		},
+	},
+}
+
+var specials = func() map[string]func() ast.Type {
+	m := map[string]func() ast.Type{}
+	for n, d := range specialDefs {
+		m[n] = d.Make
+	}
+	return m
+}()
+
+// anyType reports whether pred holds for some type node of the schemas.
+func anyType(schemas ast.Schemas, pred func(ast.Type) bool) bool {
+	found := false
+	var walk func(t ast.Type)
+	walk = func(t ast.Type) {
+		if found {
+			return
+		}
+		if pred(t) {
+			found = true
+			return
+		}
+		if t.Array != nil {
+			walk(t.Array.ValueType)
+		}
+		if t.Map != nil {
+			walk(t.Map.IndexType)
+			walk(t.Map.ValueType)
+		}
+		if t.Struct != nil {
+			for _, f := range t.Struct.Fields {
+				walk(f.Type)
+			}
+		}
+		if t.Disjunction != nil {
+			for _, b := range t.Disjunction.Branches {
+				walk(b)
+			}
+		}
+		if t.Intersection != nil {
+			for _, b := range t.Intersection.Branches {
+				walk(b)
+			}
+		}
+	}
+	for _, s := range schemas {
+		s.Objects.Iterate(func(_ string, o ast.Object) { walk(o.Type) })
+	}
+	return found
 }
 
 func specialNames() []string {
@@ -151,7 +346,7 @@ type irInput struct {
 // depth (leaves: the default ones + dangling and cyclic references + the
 // enum flavours + the specials), placed as the type of object Root and as a
 // required / optional field of struct Root.
-func irSpace(thorough bool) []irInput {
+func irSpace(thorough bool, reachable map[string]bool) []irInput {
 	// ordinary leaves (the quick tier keeps one representative per kind: the
 	// ordinary terms are C06's subject; this part is about the abnormal ones)
 	leaves := []irgen.Term{irgen.S("string"), irgen.S("int64"), irgen.S("any"), irgen.Const("str"), irgen.Enum("str"), irgen.Ref("p.S"), irgen.Ref("p.E"), irgen.Ref("p.K"), irgen.ConstRef("p.E"), irgen.Slot()}
@@ -170,13 +365,20 @@ func irSpace(thorough bool) []irInput {
 	}
 	leaves = append(leaves, irgen.ConstRef("p.Missing"), irgen.ConstRef("p.Cyc1"), irgen.Null(), irgen.S("float32"), irgen.S("uint8"))
 	for _, n := range specialNames() {
-		leaves = append(leaves, special(n))
+		if reachable[n] {
+			leaves = append(leaves, special(n))
+		}
 	}
 	cfg := irgen.Config{Depth: 2, Leaves: leaves, DisjWith: []irgen.Term{irgen.S("string"), irgen.Ref("p.S"), irgen.Ref("p.Count"), irgen.Ref("p.Missing")}}
 	if thorough {
 		cfg.DisjWith = []irgen.Term{irgen.S("string"), irgen.Ref("p.S"), irgen.Ref("p.T"), irgen.Ref("p.Count"), irgen.Ref("p.Missing"), irgen.Ref("p.Cyc1"), irgen.Null()}
 		cfg.Depth = 3
-		cfg.InnerLeaves = []irgen.Term{irgen.S("string"), irgen.Ref("p.S"), irgen.Ref("p.Missing"), irgen.Ref("p.Cyc1"), irgen.Ref("p.Count"), irgen.Enum("str"), special("emptyenum"), special("emptystruct"), special("emptydisj")}
+		cfg.InnerLeaves = []irgen.Term{irgen.S("string"), irgen.Ref("p.S"), irgen.Ref("p.Missing"), irgen.Ref("p.Cyc1"), irgen.Ref("p.Count"), irgen.Enum("str")}
+		for _, n := range []string{"emptyenum", "emptystruct", "emptydisj"} {
+			if reachable[n] {
+				cfg.InnerLeaves = append(cfg.InnerLeaves, special(n))
+			}
+		}
 		cfg.Wrappers = []string{"array", "map", "struct-req", "struct-opt", "nullable", "disj-null", "disj", "inter"}
 	}
 	terms := irgen.Types(cfg)
